@@ -297,3 +297,174 @@ def run(ctx):
                "an empty / over-long key is rejected before the journal lock is taken" if ok
                else "the key is not validated before the record is journaled: insert(\"\") journals a record the tree then panics on — the journal mutex is poisoned and EVERY later open of the database panics while replaying that record",
                fn.loc(app[0]) if app else "")
+
+    # ---- R-C02.9 the default durability.  R-C02.1 decides "persist between append and apply" under the assumption that, with
+    # automatic journal persist, a batch/transaction carries durability = Some(..).  That assumption is an obligation of its
+    # own: every way to obtain a WriteBatch / BaseTransaction must install Some(..) when manual_journal_persist is false.
+    # A constructor that hard-codes None must be crate-private and each of its callers must install the default (or forward a
+    # durability that was itself defaulted).
+    default_durability(ctx, "R-C02.9")
+
+    # ---- R-C02.10 a crash during the very FIRST open leaves a directory that can still be opened.  Database::create_new lays the
+    # directory out step by step (lock file, keyspaces folder, journal 0.jnl, version marker); a process that dies in between
+    # leaves some of them behind and no marker.  For the next open to succeed, (a) every step that creates a file with
+    # create-new semantics must tolerate its own leftover (AlreadyExists) or remove it first, and (b) the version marker must
+    # not become visible before it is complete (an empty marker is refused as an invalid version forever).
+    first_open_is_resumable(ctx, "R-C02.10")
+
+
+SETTERS = ("batch::WriteBatch::durability", "tx::write_tx::BaseTransaction::durability",
+           "tx::single_writer::write_tx::WriteTransaction::<'tx>::durability", "tx::optimistic::write_tx::WriteTransaction::durability")
+
+
+def _is_some(term):
+    return term.k == "agg" and str(term.a[0]).endswith("Option::Some")
+
+
+def _is_none(term):
+    return term.k == "agg" and str(term.a[0]).endswith("Option::None")
+
+
+def _installs_default(ctx, fn, some_blocks):
+    """with automatic journal persist (manual_journal_persist = false) every path entry -> return passes one of some_blocks"""
+    pruned = A.prune_edges(fn, assume_field={"manual_journal_persist": False})
+    if not pruned or not some_blocks:
+        return False, "no branch on manual_journal_persist that installs Some(..)"
+    errs = list(A.error_starts(fn))
+    r = A.reach(fn, [0], avoid=list(some_blocks) + errs, pruned=pruned)
+    rets = [x for x in fn.return_blocks() if x in r]
+    if rets:
+        p = A.find_path(fn, [0], rets, avoid=list(some_blocks) + errs, pruned=pruned)
+        return False, "with manual_journal_persist = false a path reaches the return without installing Some(..): bb%s" % "->bb".join(map(str, p or []))
+    return True, ""
+
+
+def default_durability(ctx, rule):
+    F = ctx.F
+    ctors = []
+    for fid, fn in sorted(F.fns.items()):
+        for b, blk in enumerate(fn.blocks):
+            if blk["cleanup"]:
+                continue
+            for st in blk["s"]:
+                rv = st["rv"]
+                if rv["k"] == "agg" and rv.get("adt") in ("batch::WriteBatch", "tx::write_tx::BaseTransaction") and "durability" in rv.get("fields", []):
+                    ctors.append((fn, b, rv))
+    ctx.floor(rule, "WriteBatch / BaseTransaction construction sites", ctors, 3)
+    n_callers = 0
+    for fn, b, rv in ctors:
+        og = ctx.og(fn)
+        term = og.of_operand(rv["ops"][rv["fields"].index("durability")])
+        alts = A.alternatives(term)
+        if all(_is_none(a) for a in alts):
+            # hard-coded None: must not be nameable from outside the crate ...
+            private = not str(fn.d.get("vis", "")).startswith("Public")
+            ctx.ob(rule, fn, "constructor-without-default-durability-is-crate-private", private,
+                   "%s builds the value with durability None and is crate-private: its callers install the default" % fn.id if private else
+                   "%s is PUBLIC and builds the value with durability None: with automatic journal persist a batch obtained this way is acknowledged by commit() while its record is still in the journal's user-space buffer, and is lost when the process dies" % fn.id,
+                   fn.loc(b))
+            # ... and every caller installs the default or forwards one (a crate-private wrapper constructor hands the
+            # obligation on to its own callers)
+            work = [(fn, 0)]
+            seen = set()
+            while work:
+                cur, depth = work.pop()
+                if cur.id in seen:
+                    continue
+                seen.add(cur.id)
+                for cfid, cb in ctx.cg.callers(cur.id):
+                    caller = F.fns.get(cfid)
+                    if caller is None:
+                        continue
+                    n_callers += 1
+                    cog = ctx.og(caller)
+                    sets = [(sb, cog.of_operand(t["args"][1])) for sb, t in caller.calls() if A.cname(t) in SETTERS and len(t["args"]) > 1]
+                    fwd = [sb for sb, tm in sets if any(A.ends_with_field(x, "durability") for x in A.alternatives(tm))]
+                    some = [sb for sb, tm in sets if _is_some(tm)]
+                    wrapper = not sets and depth < 2 and not str(caller.d.get("vis", "")).startswith("Public") and caller.d.get("name") in ("new", "with_capacity") \
+                        and any(x.k == "call" and x.a[0] == cur.id for x in A.walk(cog.of_local(0)))
+                    if wrapper:
+                        ctx.ob(rule, caller, "wrapper-constructor-is-crate-private", True,
+                               "%s wraps %s without a default and is crate-private: its callers install the default" % (caller.id, cur.id), caller.loc(cb))
+                        work.append((caller, depth + 1))
+                        continue
+                    if fwd and any(A.dominates(caller, cb, sb) for sb in fwd):
+                        ok, why = True, "forwards the transaction's own durability (defaulted where the transaction was created)"
+                    else:
+                        ok, why = _installs_default(ctx, caller, some)
+                        if ok:
+                            why = "installs Some(..) on every path when manual_journal_persist is false"
+                    ctx.ob(rule, caller, "caller-of-%s-installs-the-default-durability" % [p_ for p_ in cur.id.split("::") if not p_.startswith("<")][-2], ok,
+                           why if ok else "%s obtains a value from %s (durability None) and %s" % (caller.id, cur.id, why), caller.loc(cb))
+        else:
+            some = [sb for sb, blk in enumerate(fn.blocks) if not blk["cleanup"] and any(
+                s_["rv"]["k"] == "agg" and s_["rv"].get("adt") == "std::option::Option" and s_["rv"].get("variant") == "Some"
+                and "PersistMode" in fn.local_ty(s_["p"]["l"]) for s_ in blk["s"])]
+            from_param = any(a.k == "param" or A.ends_with_field(a, "durability") for a in alts)
+            if from_param and not any(_is_none(a) for a in alts):
+                ctx.ob(rule, fn, "constructor-takes-the-durability-from-its-caller", True, "durability := %s" % A.tstr(term)[:80], fn.loc(b))
+                continue
+            ok, why = _installs_default(ctx, fn, some)
+            ctx.ob(rule, fn, "constructor-installs-the-default-durability", ok,
+                   "durability := %s, Some(..) on every path when manual_journal_persist is false" % A.tstr(term)[:90] if ok else
+                   "%s: %s" % (fn.id, why), fn.loc(b))
+    ctx.floor(rule, "callers of None-durability constructors", n_callers, 6)
+
+
+CREATE_NEW = ("std::fs::File::create_new", "std::fs::OpenOptions::create_new")
+
+
+def _tolerates_leftover(ctx, fid, depth=0):
+    """the function that (transitively) creates a file with create-new semantics looks at ErrorKind on the failure edge"""
+    fn = ctx.F.fns.get(fid)
+    if fn is None or depth > 3:
+        return False
+    for b, t in fn.calls():
+        n = A.cname(t)
+        if n in CREATE_NEW:
+            rf = A.result_flow(fn, b)
+            starts = list(rf.err_blocks)
+            if not starts and not rf.returned:
+                # matched directly: look for an io::Error::kind call anywhere after the call
+                starts = fn.succs(b)
+            r = A.reach(fn, starts) if starts else set()
+            if any(A.cname(fn.term(x)) == "std::io::Error::kind" for x in r if fn.term(x)["k"] == "call"):
+                return True
+            return False
+        if n in ctx.F.fns and ctx.cg.reaches(n, set(CREATE_NEW)):
+            return _tolerates_leftover(ctx, n, depth + 1)
+    return False
+
+
+def first_open_is_resumable(ctx, rule):
+    fn = ctx.fn("db::Database::create_new", rule)
+    if not fn:
+        return
+    og = ctx.og(fn)
+    marker = [b for b, t in fn.calls() if A.cname(t) in CREATE_NEW and any(c == "version" for c in map(str, A.consts_in(og.of_operand(t["args"][0]))))]
+    if not marker:
+        marker = [b for b, t in fn.calls() if A.cname(t) in CREATE_NEW]
+    ctx.floor(rule, "version marker creation in Database::create_new", marker, 1)
+    if not marker:
+        return
+    m = marker[0]
+    removes = [b for b, t in fn.calls() if A.cname(t) in ("std::fs::remove_file", "std::fs::remove_dir_all")]
+    steps = 0
+    for b, t in fn.calls():
+        n = A.cname(t)
+        if b == m or not A.dominates(fn, b, m) or n not in ctx.F.fns or not ctx.cg.reaches(n, set(CREATE_NEW)):
+            continue
+        steps += 1
+        ok = _tolerates_leftover(ctx, n) or any(A.dominates(fn, r_, b) for r_ in removes)
+        short = "::".join(n.split("::")[-2:])
+        ctx.ob(rule, fn, "step-%s-is-repeatable-after-an-interrupted-first-open" % short, ok,
+               "%s tolerates the file a crashed first open left behind" % short if ok else
+               "%s creates its file with create-new semantics and gives up on AlreadyExists: when the process dies in Database::create_new after this step and before the version marker, every later open of the directory fails (the directory never held an acknowledged write, C02 still requires reopening to succeed)" % short,
+               fn.loc(b))
+    ctx.floor(rule, "create-new steps before the version marker", steps, 2)
+    renamed = [b for b, t in fn.calls() if A.cname(t) == "std::fs::rename" and m in A.dominators_of(fn, b)] if hasattr(A, "dominators_of") else \
+        [b for b, t in fn.calls() if A.cname(t) == "std::fs::rename" and A.dominates(fn, m, b)]
+    ctx.ob(rule, fn, "version-marker-becomes-visible-only-when-complete", bool(renamed),
+           "the marker is written under a temporary name and renamed into place" if renamed else
+           "the version marker is created under its final name and filled afterwards: a process that dies between File::create_new(version) and the header write leaves an empty marker, which every later open refuses as an invalid version",
+           fn.loc(m))
